@@ -210,6 +210,21 @@ Definition m_getcol (m : mat) (col : nat) : res (option vec) :=
     let* b := loop (mrow m) 0 (fun i b => let* sb := rdp p i in let* x := rd sb col in wr b i x) (vdata v) in
     ROk (Some (Vec (mrow m) b))
   else ROk None.
+(* MatrixSort / MatrixReverseSort: exchange sort of the rows by the key column, whole rows exchanged cell by cell; keys compared
+   at the precision of the cells *)
+Definition m_sort (rv : bool) (m : mat) (col : nat) : res mat :=
+  let* p0 := deref (mdata m) (0 < mrow m) in
+  let* p := loop (mrow m) 0 (fun i p =>
+      loop (mrow m - i.+1) i.+1 (fun j p =>
+        let* bi := rdp p i in let* bj := rdp p j in
+        let* xi := rd bi col in let* xj := rd bj col in
+        if (if rv then kltb xi xj else kltb xj xi) then
+          let* bb := loop (mcol m) 0 (fun k (bb : buf * buf) =>
+                        let* a := rd bb.1 k in let* b := rd bb.2 k in
+                        let* b1 := wr bb.1 k b in let* b2 := wr bb.2 k a in ROk (b1, b2)) (bi, bj) in
+          let* p1 := wrp p i bb.1 in wrp p1 j bb.2
+        else ROk p) p) p0 in
+  ROk (Mat (mrow m) (mcol m) (if mdata m is Some _ then Some p else None)).
 (* what a matrix means: its shape and cells, all allocated and written, buffers exactly sized *)
 Definition row_abs (c : nat) (b : option buf) : option (seq K) :=
   match b with Some cells => if (c <= size cells) && all isSome (take c cells) then Some (pmap id (take c cells)) else None | None => None end.
@@ -233,7 +248,7 @@ Inductive cop :=
   | MNew of nat & nat & nat | MInit of nat | MDel of nat | MResize of nat & nat & nat | MCopy of nat & nat
   | MSet of nat & nat & nat & K | MGet of nat & nat & nat | MFill of nat & K
   | MAppRow of bool & nat & nat | MAppCol of bool & nat & nat | MDelRow of nat & nat | MDelCol of nat & nat
-  | MGetRow of nat & nat & nat | MGetCol of nat & nat & nat.
+  | MGetRow of nat & nat & nat | MGetCol of nat & nat & nat | MSort of bool & nat & nat.
 (* the bool selects the pool: false = dvector (set aborts out of range), true = uivector *)
 Record pools := Pools { pd : seq (option (@vec K)); pu : seq (option (@vec K)); pm : seq (option (@mat K)) }.
 Definition pools0 : pools := Pools (nseq 4 None) (nseq 4 None) (nseq 4 None).
@@ -281,6 +296,7 @@ Definition step (s : pools) (o : cop) : res (pools * option (option K)) :=
   | MDelCol k j => let* m := getm s k in let* m' := m_delcol m j in ROk (putm s k (Some m'), None)
   | MGetRow k i d => let* m := getm s k in let* v := m_getrow m i in ROk (putv false s d v, None)
   | MGetCol k j d => let* m := getm s k in let* v := m_getcol m j in ROk (putv false s d v, None)
+  | MSort rv k c => let* m := getm s k in let* m' := m_sort rv m c in ROk (putm s k (Some m'), None)
   end.
 (* what the driver prints after a call: status (0 ok, 1 clean abort, 2 returned value, 3 memory
    error), the value, and every live container as (kind, slot, dims, cells) *)
